@@ -1,7 +1,9 @@
 use super::runner::{Codec, Property};
 
 pub mod c06;
+pub mod c07;
+pub mod c08;
 
 pub fn all<C: Codec>() -> Vec<Property> {
-    vec![c06::property::<C>()]
+    vec![c06::property::<C>(), c07::property::<C>(), c08::property::<C>()]
 }
